@@ -181,12 +181,7 @@ def parseCapsOnly (evs : List Event) (s : String) : Option Caps :=
 
 /-! ### known findings (narrow guards, decided here) -/
 
-/-- C02-neg-at-completion: the implementation dropped (or the oracle demands) a match whose completing
-event itself satisfies a `.not` clause w.r.t. the captures before it. -/
-def negAtCompletion (p : Pat) (m : Match) : Bool :=
-  match m.stack.getLast? with
-  | some l => negHit p l.ev (capsOf m.stack.dropLast)
-  | none => false
+/- C02-neg-at-completion: guard `negAtCompletion` (Model/Sase.lean) -/
 
 /-! ### state and step -/
 
